@@ -304,7 +304,11 @@ def gen_case(seed):
                 else:
                     ren = {v: ('n_' + v if swarm['globrename'] and r.chance(50) else v) for v in pick}
                     schema[port] = {'*': {ren[v]: _leaf_schema(sub[v]) for v in pick}}
-                    topo[port] = {'_path': rel(Q, g, r), '*': {ren[v]: [v] for v in pick}}
+                    if r.chance(50):
+                        topo[port] = {'_path': rel(Q, g, r), '*': {ren[v]: [v] for v in pick}}
+                    else:
+                        # the '_path' inside the glob's own dictionary
+                        topo[port] = {'*': dict({'_path': rel(Q, g, r)}, **{ren[v]: [v] for v in pick})}
                     for v in pick:
                         decl.append(((port, '@', ren[v]), g + ('@', v)))
             # writes for this port's declarations
